@@ -24,10 +24,14 @@ Match == /\ Ev.wf
          /\ ToSet(Ev.obs.attrs) = last'.exp.attrs
 
 TrRegister == IsEvent("Register") /\ Register(Ev.args.c) /\ Match
+\* args.f = how the names were handed over ("fresh", "once" or a collection of
+\* the caller's: then FormOK demands that they are what the SPEC's copy of that
+\* collection holds, i.e. what the caller put there)
 TrCallWhenReady == /\ IsEvent("CallWhenReady")
-                   /\ CallWhenReady(Ev.args.w, ToSet(Ev.args.deps)) /\ Match
+                   /\ CallWhenReady(Ev.args.w, ToSet(Ev.args.deps), Ev.args.f) /\ Match
 TrListenTo == /\ IsEvent("ListenTo")
-              /\ ListenTo(Ev.args.w, ToSet(Ev.args.deps)) /\ Match
+              /\ ListenTo(Ev.args.w, ToSet(Ev.args.deps), Ev.args.f) /\ Match
+TrMutate == IsEvent("Mutate") /\ Mutate(Ev.args.f, Ev.args.o, Ev.args.c) /\ Match
 \* JSON arrays -> programs (the dependency set of a cwr operation is a set)
 ProgJ(p) == [i \in 1..Len(p) |-> Op(p[i].k, p[i].c, p[i].w, ToSet(p[i].d))]
 ProgsJ(hs) == [i \in 1..Len(hs) |-> ProgJ(hs[i])]
@@ -36,7 +40,7 @@ TrGetDeferral == IsEvent("GetDeferral") /\ GetDeferral /\ Match
 TrRelease == IsEvent("Release") /\ Release(Ev.args.o) /\ Match
 TrQuit    == IsEvent("Quit") /\ Quit(Ev.args.re) /\ Match
 
-TrNext == \/ TrRegister \/ TrCallWhenReady \/ TrListenTo
+TrNext == \/ TrRegister \/ TrCallWhenReady \/ TrListenTo \/ TrMutate
           \/ TrGoUp \/ TrGetDeferral \/ TrRelease \/ TrQuit
 TrSpec == TrInit /\ [][TrNext]_tvars
 
